@@ -4,6 +4,7 @@ and records in each meta.json what was run and what was reported (key "builder")
 import json, os, subprocess, glob, sys
 EXTRA = {"C08": ["C20", "C03"], "C09": ["C10"], "C12": ["C04"], "C15": ["C01"], "C07": ["C17", "C02"], "C02": ["C07", "C17"],
          "C03": ["C08"], "C11": ["C03"], "C20": ["C08"], "C17": ["C07"], "C01": ["C17"]}
+GOVC = os.environ.get('SEED_GOVC', '/verif/bin/govc')
 R = os.environ.get('SEED_REPO', '/repo')  # a private checkout of /repo's HEAD may be given instead
 def sh(cmd, **kw):
     return subprocess.run(cmd, shell=True, capture_output=True, text=True, **kw)
@@ -19,7 +20,7 @@ for d in sorted(glob.glob('/verif/seeded/*/')):
     try:
         res = {}
         for p in [prop] + EXTRA.get(prop, []):
-            r = sh(f'VERIF_NOEVIDENCE=1 {os.environ.get('SEED_GOVC', '/verif/bin/govc')} check -repo {R} -prop {p}', cwd='/verif')
+            r = sh(f'VERIF_NOEVIDENCE=1 {GOVC} check -repo {R} -prop {p}', cwd='/verif')
             lines = [l for l in r.stdout.splitlines() if l.startswith(('VIOLATION', 'UNDECIDED', 'OK '))]
             res[p] = {"exit": r.returncode, "lines": [l.replace('/verif/replays/', 'replays/') for l in lines[:4]]}
     finally:
